@@ -186,10 +186,20 @@ warnings.filterwarnings("ignore")
 sys.path.insert(0, {verif!r})
 from mzverif import lib as L
 from mzverif.props import C06
-out = []
-for t in json.load(sys.stdin):
-    tok = L.make_tokenizer(C06.params_from_tuple(t))
-    out.append([tok.name, hash(tok), tok.hash_int(), tok.hash_b64()])
+req = json.load(sys.stdin)
+tuples, order, warm = (req["tuples"], req["order"], req.get("warm")) if isinstance(req, dict) else (req, list(range(len(req))), None)
+if warm == "elements":
+    # another call history: the parts are named on their own before any whole tokenizer is
+    from maze_dataset.tokenization import EdgeGroupings, EdgeSubsets, StepTokenizers, TargetTokenizers
+    [x.name for x in (EdgeGroupings.Ungrouped(connection_token_ordinal=1), EdgeGroupings.Ungrouped(connection_token_ordinal=0), EdgeSubsets.ConnectionEdges(walls=True),
+                      TargetTokenizers.Unlabeled(post=True), StepTokenizers.Distance())]
+elif warm == "use":
+    from mzverif.props.C15 import _USE_MAZES
+    L.make_tokenizer(C06.params_from_tuple(tuples[0])).to_tokens(L.make_kind(_USE_MAZES[0]["kind"], _USE_MAZES[0]["g"], _USE_MAZES[0]["sol"]))
+out = [None] * len(tuples)
+for i in order:
+    tok = L.make_tokenizer(C06.params_from_tuple(tuples[i]))
+    out[i] = [tok.name, hash(tok), tok.hash_int(), tok.hash_b64()]
 print(json.dumps(out))
 """
 
@@ -203,7 +213,14 @@ def _cross_process(n: int, hashseeds):
     def run(seed_val: int):
         stats = Stats()
         tuples = core.collect_examples(_tuple(), n, seed_val)
-        outs = {hs: json.loads(core.run_python(_SUBPROC.format(verif=core.VERIF_DIR), {"PYTHONHASHSEED": hs}, stdin=json.dumps(tuples)).strip().splitlines()[-1]) for hs in hashseeds}
+        # every interpreter gets its own hash seed, its own visiting order and its own call history before the first tokenizer is named
+        outs = {}
+        for k, hs in enumerate(hashseeds):
+            order = list(range(len(tuples)))
+            if k % 2 == 1:
+                order.reverse()
+            req = {"tuples": tuples, "order": order, "warm": [None, "elements", "use"][k % 3]}
+            outs[hs] = json.loads(core.run_python(_SUBPROC.format(verif=core.VERIF_DIR), {"PYTHONHASHSEED": hs}, stdin=json.dumps(req)).strip().splitlines()[-1])
         fails = []
         for i, t in enumerate(tuples):
             tok = L.make_tokenizer(C06.params_from_tuple(t))
@@ -223,8 +240,9 @@ def _cross_process(n: int, hashseeds):
 def _replay_cross(case):
     t = case["tuple"]
     vals = set()
-    for hs in case.get("hashseeds", ["0", "1"]):
-        vals.add(json.dumps(json.loads(core.run_python(_SUBPROC.format(verif=core.VERIF_DIR), {"PYTHONHASHSEED": hs}, stdin=json.dumps([t])).strip().splitlines()[-1])[0]))
+    for k, hs in enumerate(case.get("hashseeds", ["0", "1"])):
+        req = {"tuples": [t], "order": [0], "warm": [None, "elements", "use"][k % 3]}
+        vals.add(json.dumps(json.loads(core.run_python(_SUBPROC.format(verif=core.VERIF_DIR), {"PYTHONHASHSEED": hs}, stdin=json.dumps(req)).strip().splitlines()[-1])[0]))
     tok = L.make_tokenizer(C06.params_from_tuple(t))
     vals.add(json.dumps([tok.name, hash(tok), tok.hash_int(), tok.hash_b64()]))
     require(len(vals) == 1, "C15:identity-differs-across-processes", f"{vals}")
